@@ -2,7 +2,7 @@
 import os, json, random
 from lib import core, tlc, build
 
-KINDS = {"optional": ["int", "tracked", "moveonly"], "expected": ["int", "tracked", "moveonly"],
+KINDS = {"optional": ["int", "tracked", "moveonly"], "expected": ["int", "tracked", "moveonly"], "expected_void": ["int"],
          "variant": ["int", "tracked", "moveonly"], "manual_box": ["int", "tracked"]}
 
 
